@@ -109,10 +109,7 @@ def run_job(mod, job, level, seed=0, timeout_ms=10000, deadline=None, canary=Fal
             g.xcheck_left = 1
 
         def fn(g, item=item):
-            if canary:
-                mod.harness(g, item, level, canary=True)
-            else:
-                mod.harness(g, item, level)
+            call_harness(mod, g, item, level, canary)
         done = g.explore(fn)
         if not done:
             truncated += 1
@@ -136,15 +133,34 @@ def run_job(mod, job, level, seed=0, timeout_ms=10000, deadline=None, canary=Fal
             'structures': structures, 'truncated': truncated, 'unknown_labels': unknown_labels[:5]}
 
 
+def call_harness(mod, g, item, level, canary=False):
+    """run the harness; an exception that the code under test raises and the harness does not expect (it escapes a
+    public API call of sismic) is a violation of the property being exercised, replayed like any other -- not a
+    failure of the machinery.  Exceptions raised by the harness' own code stay harness errors."""
+    try:
+        if canary:
+            mod.harness(g, item, level, canary=True)
+        else:
+            mod.harness(g, item, level)
+    except Exception as e:
+        tb = traceback.extract_tb(e.__traceback__)
+        inner = tb[-1].filename if tb else ''
+        pkg = os.sep + 'sismic' + os.sep
+        ours = os.sep + 'vf' + os.sep
+        if pkg in inner and ours not in inner and 'Sym' not in repr(e):
+            where = ['%s:%d %s' % (os.path.basename(f.filename), f.lineno, f.name) for f in tb[-4:]]
+            g.fail('exception_escapes_the_code_under_test',
+                   {'exception': type(e).__name__, 'message': str(e)[:300], 'where': where})
+        else:
+            raise
+
+
 def replay_concrete(mod, item, level, values, label, canary=False):
     """re-run the harness on plain python values; no proxies are created"""
     g = Engine(concrete=values)
 
     def fn(g):
-        if canary:
-            mod.harness(g, item, level, canary=True)
-        else:
-            mod.harness(g, item, level)
+        call_harness(mod, g, item, level, canary)
     try:
         out = g.run_concrete(fn)
     except Exception as e:   # the real code blew up in an unexpected way during replay
